@@ -85,6 +85,9 @@ func checkC18(c *Check) {
 			return ok, "AS = be32(value[0:4]), IP = value[4:8]"
 		}},
 		{"CommunitiesPathAttr", "PATH_ATTR_COMMUNITY", true, true, "mult4", "TreatAsWithdraw", func(c *Check, fn *ssa.Function, st *State, b *Expr) (bool, string) {
+			if !c.P.HasFn("decodeUint32Set") {
+				return true, "element loop in the decoder itself (C18.3 nothing-lost)"
+			}
 			v := storedValue(fn, st)
 			ok := v != nil && strings.Contains(v.Key, "rcall:decodeUint32Set(") && strings.Contains(v.Key, b.Key)
 			return ok, "the value is decodeUint32Set(all value octets)"
@@ -92,6 +95,9 @@ func checkC18(c *Check) {
 		{"OriginatorIDPathAttr", "PATH_ATTR_ORIGINATOR_ID", true, false, "=4", "TreatAsWithdraw", addrOf(0)},
 		{"ClusterListPathAttr", "PATH_ATTR_CLUSTER_LIST", true, false, "mult4", "TreatAsWithdraw", nil},
 		{"LargeCommunitiesPathAttr", "PATH_ATTR_LARGE_COMMUNITY", true, true, "mult12", "TreatAsWithdraw", func(c *Check, fn *ssa.Function, st *State, b *Expr) (bool, string) {
+			if !c.P.HasFn("decodeLargeCommunitySet") {
+				return true, "element loop in the decoder itself (C18.3 nothing-lost)"
+			}
 			v := storedValue(fn, st)
 			ok := v != nil && strings.Contains(v.Key, "rcall:decodeLargeCommunitySet(") && strings.Contains(v.Key, b.Key)
 			return ok, "the value is decodeLargeCommunitySet(all value octets)"
@@ -247,9 +253,9 @@ func checkC18(c *Check) {
 	c.setDecoders("C18.3 nothing-lost")
 	c.ignoredErrorBeliefs("C18.3 discarded-error-belief", []string{"OriginPathAttr.Decode", "ASPathAttr.Decode", "NextHopPathAttr.Decode", "MEDPathAttr.Decode", "LocalPrefPathAttr.Decode", "AtomicAggregatePathAttr.Decode",
 		"AggregatorPathAttr.Decode", "CommunitiesPathAttr.Decode", "OriginatorIDPathAttr.Decode", "ClusterListPathAttr.Decode", "LargeCommunitiesPathAttr.Decode"})
-	c.checkBounds("C18.4", []string{"OriginPathAttr.Decode", "ASPathAttr.Decode", "NextHopPathAttr.Decode", "MEDPathAttr.Decode", "LocalPrefPathAttr.Decode", "AtomicAggregatePathAttr.Decode",
+	c.checkBounds("C18.4", append(p.existing([]string{"decodeUint32Set", "decodeLargeCommunitySet"}), []string{"OriginPathAttr.Decode", "ASPathAttr.Decode", "NextHopPathAttr.Decode", "MEDPathAttr.Decode", "LocalPrefPathAttr.Decode", "AtomicAggregatePathAttr.Decode",
 		"AggregatorPathAttr.Decode", "CommunitiesPathAttr.Decode", "OriginatorIDPathAttr.Decode", "ClusterListPathAttr.Decode", "LargeCommunitiesPathAttr.Decode",
-		"decodeUint32Set", "decodeLargeCommunitySet", "notifDataForAttrBasedErr", "PathAttrFlags.Validate"}, 30)
+		"notifDataForAttrBasedErr", "PathAttrFlags.Validate"}...), 30)
 }
 
 func (c *Check) flagAccessors(rule string) {
@@ -443,6 +449,16 @@ func (c *Check) setDecoders(rule string) {
 		fn   string
 		step int64
 	}{{"decodeUint32Set", 4}, {"decodeLargeCommunitySet", 12}, {"ClusterListPathAttr.Decode", 4}} {
+		// an unexported set helper may have been inlined into its only
+		// decoder: the element loop is then looked for there
+		if !p.HasFn(s.fn) {
+			switch s.fn {
+			case "decodeLargeCommunitySet":
+				s.fn = "LargeCommunitiesPathAttr.Decode"
+			case "decodeUint32Set":
+				s.fn = "CommunitiesPathAttr.Decode"
+			}
+		}
 		fn := p.Fn(s.fn)
 		if fn == nil {
 			continue
